@@ -95,6 +95,21 @@ pub fn rot_family(level: u32) -> Vec<[f64; 4]> {
             push_unique(&mut v, q_axis_angle(a, th));
         }
     }
+    // 4b. still closer to the identity on either sheet (w near +1 and near -1): where small-rotation
+    //     shortcuts live
+    for a in axes.iter().step_by(3) {
+        for th in [1e-6, 1e-5, 3e-5, 2.0 * pi - 1e-5, 2.0 * pi - 1e-3] {
+            push_unique(&mut v, q_axis_angle(a, th));
+        }
+    }
+    // 4c. axes with one component much smaller than the others (dominant-component selection in the
+    //     matrix -> quaternion branches), at large angles and around the half-turn
+    for base in [[0.01, 0.9, 0.43], [0.9, 0.01, -0.43], [0.43, -0.9, 0.01], [-0.01, 0.43, 0.9], [0.7, 0.71, 1e-3], [1e-3, 0.02, 1.0]] {
+        let a = crate::refm::normalize(&base);
+        for th in [pi, pi - 1e-3, pi + 1e-3, 2.5, 3.0, 1.0] {
+            push_unique(&mut v, q_axis_angle(&[a[0], a[1], a[2]], th));
+        }
+    }
     // 5. rotations on and on either side of each matrix->quaternion branch boundary
     let baxes = unit_dirs(1);
     for a in baxes.iter().step_by(if level == 0 { 3 } else { 1 }) {
@@ -122,6 +137,25 @@ pub fn rot_family(level: u32) -> Vec<[f64; 4]> {
         }
     }
     v
+}
+
+/// a cut of the rotation family for the quick tiers: every `len/n`-th member plus *all* members that sit
+/// where implementations branch - within 1e-2 rad of the identity (either sheet) or of a half-turn, and
+/// rotations about axes with one component much smaller than the others
+pub fn rot_subset(level: u32, n: usize) -> Vec<[f64; 4]> {
+    let rot = rot_family(level);
+    let step = (rot.len() / n.max(1)).max(1);
+    let mut sub: Vec<[f64; 4]> = rot.iter().step_by(step).copied().collect();
+    for q in rot.iter() {
+        let nq = (q[0] * q[0] + q[1] * q[1] + q[2] * q[2] + q[3] * q[3]).sqrt();
+        let w = q[3].abs() / nq;
+        let nv = (q[0] * q[0] + q[1] * q[1] + q[2] * q[2]).sqrt();
+        let tiny_axis_component = nv > 0.0 && (0..3).any(|i| q[i] != 0.0 && (q[i] / nv).abs() < 0.03);
+        if (w > 0.99998 || w < 5.1e-3 || tiny_axis_component) && !sub.contains(q) {
+            sub.push(*q);
+        }
+    }
+    sub
 }
 
 /// integer-valued quaternion grid {-k..k}^4 (index -> components)
